@@ -175,12 +175,67 @@ FamNested == <<
     Bin("ULeg", x, Bin("ULeg", y, M1)), Bin("ULeg", x, Bin("ULeg", y, M2)),
     Ch("Sum", << x, Bin("ULeg", y, One) >>), Ch("Sum", << x, Bin("ULeg", y, OneF) >>) >>
 
+(***************************************************************************)
+(* Round 2: three-level hierarchies (C01_Values!ParentOf).                 *)
+(***************************************************************************)
+U4(cls, a, b, c, d) == Node(cls, << a, b, c, d >>)
+MVV(s) == Un("MultiVectorVariable", Str(s))
+FamHier == <<
+    MVV("x"), MVV("y"), Var("x"),
+    Bin("UMVTag", Str("x"), One), Bin("UMVTag", Str("x"), OneF), Bin("UMVTag", Str("x"), Two),
+    Bin("UMVTag", Str("x"), M1), Bin("UMVTag", Str("x"), M2), Bin("UMVTag", Str("y"), One),
+    Bin("UMVTag", CStr("p"), One), Bin("UMVTag", CStr("q"), One) >>
+FamHierU == <<
+    U3("ULegGrand", One, Two, Three), U3("ULegGrand", One, Two, KF(3, 1)), U3("ULegGrand", One, Two, KI(4)),
+    U3("ULegGrand", One, Two, M1), U3("ULegGrand", One, Two, M2), U3("ULegGrand", M1, Two, Three),
+    U3("ULegGrand", M2, Two, Three),
+    U3("ULegChildPlain", One, Two, Three), U3("ULegChildPlain", One, Two, KI(4)),
+    U3("ULegChildPlain", One, Two, M1), U3("ULegChildPlain", One, Two, M2),
+    U3("ULegChild", One, Two, Three),
+    Bin("UPlain2", One, Two), Bin("UPlain2", One, Three), Bin("UPlain2", One, M1), Bin("UPlain2", One, M2),
+    Bin("UPlain", One, Two) >>
+FamHierD == <<
+    U4("ULegGrandD", One, Two, Three, KI(4)), U4("ULegGrandD", One, Two, Three, KF(4, 1)),
+    U4("ULegGrandD", One, Two, Three, KI(5)), U4("ULegGrandD", One, Two, Three, M1),
+    U4("ULegGrandD", One, Two, Three, M2), U4("ULegGrandD", One, Two, M1, KI(4)),
+    U4("ULegGrandD", One, Two, M2, KI(4)), U3("UChild", One, Two, Three) >>
+
+\* (instances of the ancestors ..., two instances of the leaf class): the leaf instances
+\* differ in the argument the leaf class adds / differ there with colliding hashes /
+\* are ==.  The sweep "hier" runs every order of first use over them.
+HierTuples == {
+    << Bin("UPlain", One, Two), U3("ULegGrand", One, Two, Three), U3("ULegGrand", One, Two, KI(4)) >>,
+    << Bin("UPlain", One, Two), U3("ULegGrand", One, Two, M1), U3("ULegGrand", One, Two, M2) >>,
+    << Bin("UPlain", One, Two), U3("ULegGrand", One, Two, Three), U3("ULegGrand", One, Two, KF(3, 1)) >>,
+    << Bin("URoot", One, Two), U3("ULegGrand", One, Two, Three), U3("ULegGrand", One, Two, KI(4)) >>,
+    << MVV("x"), Bin("UMVTag", Str("x"), One), Bin("UMVTag", Str("x"), Two) >>,
+    << MVV("x"), Bin("UMVTag", Str("x"), M1), Bin("UMVTag", Str("x"), M2) >>,
+    << MVV("x"), Bin("UMVTag", Str("x"), One), Bin("UMVTag", Str("x"), OneF) >>,
+    << Var("x"), Bin("UMVTag", Str("x"), One), Bin("UMVTag", Str("x"), Two) >>,
+    << U3("UChild", One, Two, Three), U4("ULegGrandD", One, Two, Three, KI(4)), U4("ULegGrandD", One, Two, Three, KI(5)) >>,
+    << U3("UChild", One, Two, Three), U4("ULegGrandD", One, Two, Three, M1), U4("ULegGrandD", One, Two, Three, M2) >>,
+    << U3("ULegChild", One, Two, Three), U3("ULegChildPlain", One, Two, Three), U3("ULegChildPlain", One, Two, KI(4)) >>,
+    << U3("ULegChild", One, Two, Three), U3("ULegChildPlain", One, Two, M1), U3("ULegChildPlain", One, Two, M2) >>,
+    << Bin("UPlain", One, Two), Bin("UPlain2", One, Two), Bin("UPlain2", One, Three) >>,
+    << Bin("UPlain", One, M1), Bin("UPlain2", One, M1), Bin("UPlain2", One, M2) >>,
+    \* siblings below one decorated class: an undecorated one and a legacy one
+    << Bin("UPlain", One, Two), U3("ULegChild", One, Two, Three), U3("ULegChild", One, Two, KI(4)) >>,
+    << Bin("UPlain", One, Two), U3("ULegChild", One, Two, M1), U3("ULegChild", One, Two, M2) >>,
+    << Un("UVar", Str("x")), Bin("UMVTag", Str("x"), One), Bin("UMVTag", Str("x"), Two) >>,
+    << U3("ULegChild", One, Two, Three), Bin("UPlain", One, Two), Bin("UPlain", One, Three) >>,
+    \* the whole chain: root, middle, two leaves
+    << Bin("URoot", One, Two), Bin("UPlain", One, Two), U3("ULegGrand", One, Two, Three), U3("ULegGrand", One, Two, KI(4)) >>,
+    << Var("x"), MVV("x"), Bin("UMVTag", Str("x"), One), Bin("UMVTag", Str("x"), Two) >> }
+HierSmall == {
+    << Bin("UPlain", One, Two), U3("ULegGrand", One, Two, Three), U3("ULegGrand", One, Two, KI(4)) >>,
+    << MVV("x"), Bin("UMVTag", Str("x"), M1), Bin("UMVTag", Str("x"), M2) >> }
+
 \* constructor arguments the class refuses
 FamCtorErr == << CmpN(x, Str("<<"), y), CmpN(x, Str("<"), y) >>
 
 Families == << FamNames, FamNoField, FamTagVar, FamChildrenOnly, FamSum, FamQuot, FamPowShift,
                FamUnary, FamCmp, FamIf, FamCall, FamCallKw, FamSubLook, FamCse, FamSubstDeriv,
-               FamUser2, FamUser3, FamNested, FamCtorErr >>
+               FamUser2, FamUser3, FamNested, FamCtorErr, FamHier, FamHierU, FamHierD >>
 
 AllSpecs == UNION { { Families[i][k] : k \in 1..Len(Families[i]) } : i \in 1..Len(Families) }
 
